@@ -1,6 +1,873 @@
 import OnetVerif.Model.C09
-/-! Property C09 — property theorems, negation witnesses, `_partial` variants and non-vacuity
-examples only (helper lemmas that need Mathlib go to OnetVerif/Proofs/). -/
+/-! Property C09 — peer failures are contained, reported to senders, and recoverable.
+Property theorems (`c09_…`), the lemmas they need, witnesses and non-vacuity examples. -/
 namespace C09
+
+/-! ### invariants of the connection table -/
+
+/-- a connection whose far end exists belongs to a peer that is up -/
+def Consistent (s : St) : Prop := ∀ c ∈ s.conns, c.alive = true → s.up.contains c.peer = true
+
+/-- connection numbers are fresh: below `next`, pairwise distinct -/
+def FreshIds (s : St) : Prop := (∀ c ∈ s.conns, c.id < s.next) ∧ (s.conns.map (·.id)).Nodup
+
+/-! ### `connect`, `sendOn`, `sendMsgs`: what they leave alone -/
+
+theorem connect_up (s : St) (p : Peer) (h : s.up.contains p = true) :
+    connect s p = ({ s with conns := s.conns ++ [{ id := s.next, peer := p, alive := true }],
+                            next := s.next + 1, dials := s.dials + 1 },
+                   some { id := s.next, peer := p, alive := true }) := by
+  unfold connect; rw [if_pos h]
+
+theorem connect_down (s : St) (p : Peer) (h : s.up.contains p = false) :
+    connect s p = ({ s with dials := s.dials + s.dpc }, none) := by
+  unfold connect; rw [if_neg (by rw [h]; exact Bool.false_ne_true)]
+
+/-- the fields a `Send` never touches, and the monotone ones -/
+structure Keeps (s s' : St) : Prop where
+  dpc : s'.dpc = s.dpc
+  up : s'.up = s.up
+  handlers : s'.handlers = s.handlers
+  calls : s'.calls = s.calls
+
+theorem Keeps.refl (s : St) : Keeps s s := ⟨rfl, rfl, rfl, rfl⟩
+theorem Keeps.trans {a b c : St} (h1 : Keeps a b) (h2 : Keeps b c) : Keeps a c :=
+  ⟨h2.dpc.trans h1.dpc, h2.up.trans h1.up, h2.handlers.trans h1.handlers, h2.calls.trans h1.calls⟩
+
+theorem connect_keeps (s : St) (p : Peer) : Keeps s (connect s p).1 := by
+  unfold connect; split <;> exact ⟨rfl, rfl, rfl, rfl⟩
+
+theorem sendOn_keeps (s : St) (c : Conn) (m : Nat) (b : Bool) : Keeps s (sendOn s c m b).1 := by
+  unfold sendOn; split <;> exact ⟨rfl, rfl, rfl, rfl⟩
+
+theorem sendOn_dials (s : St) (c : Conn) (m : Nat) (b : Bool) : (sendOn s c m b).1.dials = s.dials := by
+  unfold sendOn; split <;> rfl
+
+theorem sendOn_conns (s : St) (c : Conn) (m : Nat) (b : Bool) : (sendOn s c m b).1.conns = s.conns := by
+  unfold sendOn; split <;> rfl
+
+theorem connect_dials (s : St) (p : Peer) (h : 1 ≤ s.dpc) :
+    (connect s p).1.dials ≤ s.dials + s.dpc := by
+  unfold connect; split <;> simp <;> omega
+
+theorem connect_some_peer {s s2 : St} {p : Peer} {c' : Conn} (h : connect s p = (s2, some c')) :
+    c'.peer = p := by
+  unfold connect at h
+  split at h
+  · simp at h; rw [← h.2]
+  · simp at h
+
+theorem sendMsgs_keeps (s : St) (p : Peer) (c : Conn) (b : Bool) (msgs : List Nat) :
+    Keeps s (sendMsgs s p c b msgs).1 := by
+  induction msgs generalizing s with
+  | nil => simp [sendMsgs, Keeps.refl]
+  | cons m ms ih =>
+    simp only [sendMsgs]
+    have k1 := sendOn_keeps s c m b
+    split
+    · exact k1.trans (ih _)
+    · have kc := connect_keeps (sendOn s c m b).1 p
+      split
+      · rename_i s2 heq
+        have h2 : s2 = (connect (sendOn s c m b).1 p).1 := by rw [heq]
+        subst h2; exact k1.trans kc
+      · rename_i s2 c' heq
+        have h2 : s2 = (connect (sendOn s c m b).1 p).1 := by rw [heq]
+        subst h2
+        have k2 := sendOn_keeps (connect (sendOn s c m b).1 p).1 c' m b
+        split
+        · exact (k1.trans kc).trans (k2.trans (ih _))
+        · exact (k1.trans kc).trans k2
+
+/-! ### bounded attempts -/
+
+theorem sendMsgs_dials (s : St) (p : Peer) (c : Conn) (b : Bool) (msgs : List Nat) (h : 1 ≤ s.dpc) :
+    (sendMsgs s p c b msgs).1.dials ≤ s.dials + msgs.length * s.dpc ∧ Keeps s (sendMsgs s p c b msgs).1 := by
+  induction msgs generalizing s with
+  | nil => simp [sendMsgs, Keeps.refl]
+  | cons m ms ih =>
+    simp only [sendMsgs, List.length_cons]
+    have k1 := sendOn_keeps s c m b
+    have d1 := sendOn_dials s c m b
+    split
+    · have := ih (sendOn s c m b).1 (by rw [k1.dpc]; exact h)
+      rw [k1.dpc, d1] at this
+      refine ⟨?_, k1.trans this.2⟩
+      have e : (ms.length + 1) * s.dpc = ms.length * s.dpc + s.dpc := Nat.succ_mul _ _
+      omega
+    · have kc := connect_keeps (sendOn s c m b).1 p
+      have dc := connect_dials (sendOn s c m b).1 p (by rw [k1.dpc]; exact h)
+      rw [k1.dpc, d1] at dc
+      have e : (ms.length + 1) * s.dpc = ms.length * s.dpc + s.dpc := Nat.succ_mul _ _
+      split
+      · rename_i s2 heq
+        have h2 : s2 = (connect (sendOn s c m b).1 p).1 := by rw [heq]
+        subst h2
+        exact ⟨by dsimp only; omega, k1.trans kc⟩
+      · rename_i s2 c' heq
+        have h2 : s2 = (connect (sendOn s c m b).1 p).1 := by rw [heq]
+        subst h2
+        have k2 := sendOn_keeps (connect (sendOn s c m b).1 p).1 c' m b
+        have d2 := sendOn_dials (connect (sendOn s c m b).1 p).1 c' m b
+        split
+        · have := ih (sendOn (connect (sendOn s c m b).1 p).1 c' m b).1
+            (by rw [k2.dpc, kc.dpc, k1.dpc]; exact h)
+          rw [k2.dpc, kc.dpc, k1.dpc, d2] at this
+          exact ⟨by omega, (k1.trans kc).trans (k2.trans this.2)⟩
+        · exact ⟨by rw [d2]; omega, (k1.trans kc).trans k2⟩
+
+/-- **bounded attempts**: one `Router.Send` of `n` messages performs at most `1 + n` connects,
+i.e. at most `(1 + n)·dialsPerConnect` dial attempts, and then returns (the function is total).
+For the single message every entry point sends: at most two connects. -/
+theorem c09_bounded_attempts (s : St) (p : Peer) (msgs : List Nat) (staleOk : Bool) (h : 1 ≤ s.dpc) :
+    (send s p msgs staleOk).1.dials ≤ s.dials + (1 + msgs.length) * s.dpc := by
+  unfold send
+  have e : (1 + msgs.length) * s.dpc = s.dpc + msgs.length * s.dpc := by
+    rw [Nat.add_mul, Nat.one_mul]
+  split
+  · dsimp only; omega
+  · split
+    · rename_i c _
+      have := (sendMsgs_dials s p c staleOk msgs h).1
+      omega
+    · have kc := connect_keeps s p
+      have dc := connect_dials s p h
+      split
+      · rename_i s1 heq
+        have h1 : s1 = (connect s p).1 := by rw [heq]
+        subst h1; dsimp only; omega
+      · rename_i s1 c heq
+        have h1 : s1 = (connect s p).1 := by rw [heq]
+        subst h1
+        have := (sendMsgs_dials (connect s p).1 p c staleOk msgs (by rw [kc.dpc]; exact h)).1
+        rw [kc.dpc] at this
+        omega
+
+/-- the constant in the bound, for the two transports and every value of `MaxRetryConnect` -/
+theorem c09_dials_per_connect (M : Nat) :
+    dialsPerConnect M .tcp = M ∧ dialsPerConnect M .loc = M * M := ⟨rfl, rfl⟩
+
+/-! ### errors reach the caller -/
+
+theorem firstConn_some {s : St} {p : Peer} {c : Conn} (h : firstConn s p = some c) :
+    c ∈ s.conns ∧ c.peer = p := by
+  unfold firstConn at h
+  exact ⟨List.mem_of_find?_eq_some h, by simpa using List.find?_some h⟩
+
+theorem sendMsgs_down (s : St) (p : Peer) (c : Conn) (msgs : List Nat) (hne : msgs ≠ [])
+    (hc : c.alive = false) (hup : s.up.contains p = false) :
+    (sendMsgs s p c false msgs).2 = .err := by
+  cases msgs with
+  | nil => exact absurd rfl hne
+  | cons m ms =>
+    simp only [sendMsgs, sendOn, hc]
+    simp [connect_down s p hup]
+
+/-- `Router.Send` towards a peer at whose address nothing listens returns an error — provided a
+write on a connection whose far end is gone fails (see the note on TCP in the model). -/
+theorem send_down_errs (s : St) (hs : Consistent s) (p : Peer) (msgs : List Nat)
+    (hup : s.up.contains p = false) : (send s p msgs false).2 = .err := by
+  unfold send
+  split
+  · rfl
+  · rename_i hne
+    have hne' : msgs ≠ [] := by intro e; simp [e] at hne
+    split
+    · rename_i c hf
+      obtain ⟨hm, hp⟩ := firstConn_some hf
+      have hdead : c.alive = false := by
+        cases ha : c.alive with
+        | false => rfl
+        | true => have := hs c hm ha; rw [hp, hup] at this; cases this
+      exact sendMsgs_down s p c msgs hne' hdead hup
+    · simp [connect_down s p hup]
+
+theorem entry_single_err (e : Entry) (d : Peer) (rest : List Peer) (res : Peer → Res)
+    (he : e = .routerSend ∨ e = .ctxSendRaw ∨ e = .sendTo ∨ e = .sendToParent) (hd : res d = .err) :
+    (entry e (d :: rest) res).1 = 1 := by
+  rcases he with rfl | rfl | rfl | rfl <;> simp [entry, hd]
+
+theorem entry_children_err (dests : List Peer) (res : Peer → Res) (h : ∃ d ∈ dests, res d = .err) :
+    (entry .sendToChildren dests res).1 = 1 := by
+  simp only [entry]
+  induction dests with
+  | nil => obtain ⟨d, hd, _⟩ := h; cases hd
+  | cons d l ih =>
+    simp only [entry.go]
+    split
+    · rfl
+    · rename_i hn
+      obtain ⟨x, hx, hr⟩ := h
+      rcases List.mem_cons.mp hx with rfl | hx
+      · exact absurd hr hn
+      · exact ih ⟨x, hx, hr⟩
+
+theorem entry_all_err (dests : List Peer) (res : Peer → Res) (h : ∃ d ∈ dests, res d = .err) :
+    1 ≤ (entry .sendToAll dests res).1 := by
+  obtain ⟨d, hd, hr⟩ := h
+  simp only [entry]
+  exact List.length_pos_of_mem (List.mem_filter.mpr ⟨hd, by simp [hr]⟩)
+
+/-- **every send entry point reports the failure**: in every consistent state, for every entry
+point offered to services and protocols — router/server send, the service context's raw send, the
+tree-node send, send-to-parent, send-to-children (sequential and parallel), multicast, broadcast —
+if nothing listens at a destination it addresses, the caller gets an error. -/
+theorem c09_error_reaches_caller (s : St) (hs : Consistent s) (e : Entry) (dests : List Peer)
+    (msgs : List Nat) (hne : dests ≠ [])
+    (hdown : ∀ d ∈ dests, s.up.contains d = false) :
+    1 ≤ (entry e dests (fun d => (send s d msgs false).2)).1 := by
+  cases dests with
+  | nil => exact absurd rfl hne
+  | cons d rest =>
+    have hd : (fun d => (send s d msgs false).2) d = .err :=
+      send_down_errs s hs d msgs (hdown d (by simp))
+    cases e with
+    | routerSend => rw [entry_single_err _ d rest _ (.inl rfl) hd]; omega
+    | ctxSendRaw => rw [entry_single_err _ d rest _ (.inr (.inl rfl)) hd]; omega
+    | sendTo => rw [entry_single_err _ d rest _ (.inr (.inr (.inl rfl))) hd]; omega
+    | sendToParent => rw [entry_single_err _ d rest _ (.inr (.inr (.inr rfl))) hd]; omega
+    | sendToChildren => rw [entry_children_err _ _ ⟨d, by simp, hd⟩]; omega
+    | sendToAll => exact entry_all_err _ _ ⟨d, by simp, hd⟩
+
+/-- the defect that was repaired: `Context.SendRaw` built the error and returned nil -/
+def entryBeforeFix (e : Entry) (dests : List Peer) (res : Peer → Res) : Nat × List Peer :=
+  if e = .ctxSendRaw then (0, dests.take 1) else entry e dests res
+
+theorem c09_sendraw_before_fix :
+    (entryBeforeFix .ctxSendRaw [7] (fun d => (send {} d [0] false).2)).1 = 0 ∧
+    (entry .ctxSendRaw [7] (fun d => (send {} d [0] false).2)).1 = 1 := by decide
+
+/-! ### error handlers are told, exactly the lost connection goes -/
+
+theorem eq_of_id_eq {l : List Conn} (hn : (l.map (·.id)).Nodup) {x y : Conn} (hx : x ∈ l) (hy : y ∈ l)
+    (h : x.id = y.id) : x = y := by
+  induction l with
+  | nil => cases hx
+  | cons a l ih =>
+    simp only [List.map_cons, List.nodup_cons] at hn
+    rcases List.mem_cons.mp hx with hxa | hx' <;> rcases List.mem_cons.mp hy with hya | hy'
+    · rw [hxa, hya]
+    · exact absurd (List.mem_map.mpr ⟨y, hy', by show y.id = a.id; rw [← h, hxa]⟩) hn.1
+    · exact absurd (List.mem_map.mpr ⟨x, hx', by show x.id = a.id; rw [h, hya]⟩) hn.1
+    · exact ih hn.2 hx' hy'
+
+theorem mem_swapRemove (mine : List Conn) (cid : Nat) (last : Conn) (init : List Conn)
+    (hm : mine = init ++ [last]) (hn : (mine.map (·.id)).Nodup) (hc : ∃ c ∈ mine, c.id = cid) (x : Conn) :
+    x ∈ (mine.map fun y => if y.id == cid then last else y).dropLast ↔ x ∈ mine ∧ x.id ≠ cid := by
+  subst hm
+  rw [List.map_append, List.map_singleton, List.dropLast_concat]
+  simp only [List.map_append, List.map_singleton] at hn
+  have hninit : ∀ y ∈ init, y.id ≠ last.id := by
+    intro y hy e
+    have := (List.nodup_append.mp hn).2.2 y.id (List.mem_map.mpr ⟨y, hy, rfl⟩) last.id (by simp)
+    exact this e
+  have hnodup : (init.map (·.id)).Nodup := (List.nodup_append.mp hn).1
+  by_cases hl : last.id = cid
+  · -- the lost connection is the last one: nothing moves
+    have hsame : (init.map fun y => if y.id == cid then last else y) = init := by
+      rw [List.map_congr_left (g := id)]
+      · simp
+      · intro y hy
+        have : y.id ≠ cid := fun e => hninit y hy (e.trans hl.symm)
+        simp [this]
+    rw [hsame]
+    constructor
+    · intro hx
+      exact ⟨by simp [hx], fun e => hninit x hx (e.trans hl.symm)⟩
+    · rintro ⟨hx, hne⟩
+      rcases List.mem_append.mp hx with h | h
+      · exact h
+      · simp at h; subst h; exact absurd hl hne
+  · -- the lost connection is inside: the last one takes its place
+    obtain ⟨c, hcm, hcid⟩ := hc
+    have hcinit : c ∈ init := by
+      rcases List.mem_append.mp hcm with h | h
+      · exact h
+      · simp at h; subst h; exact absurd hcid hl
+    constructor
+    · intro hx
+      obtain ⟨y, hy, hxy⟩ := List.mem_map.mp hx
+      by_cases hyc : y.id = cid
+      · simp [hyc] at hxy; subst hxy
+        exact ⟨by simp, hl⟩
+      · simp [hyc] at hxy; subst hxy
+        exact ⟨by simp [hy], hyc⟩
+    · rintro ⟨hx, hne⟩
+      rcases List.mem_append.mp hx with h | h
+      · exact List.mem_map.mpr ⟨x, h, by simp [hne]⟩
+      · simp at h; subst h
+        exact List.mem_map.mpr ⟨c, hcinit, by simp [hcid]⟩
+
+theorem mem_removeSwap (l : List Conn) (c : Conn) (hc : c ∈ l) (hn : (l.map (·.id)).Nodup) (x : Conn) :
+    x ∈ removeSwap l c ↔ x ∈ l ∧ x.id ≠ c.id := by
+  have hcm : c ∈ l.filter (·.peer == c.peer) := List.mem_filter.mpr ⟨hc, by simp⟩
+  have hmn : ((l.filter (·.peer == c.peer)).map (·.id)).Nodup :=
+    hn.sublist (List.Sublist.map _ List.filter_sublist)
+  have hany : (l.filter (·.peer == c.peer)).any (·.id == c.id) = true :=
+    List.any_eq_true.mpr ⟨c, hcm, by simp⟩
+  have hsplit : ∀ x, x ∈ l ↔ x ∈ l.filter (·.peer != c.peer) ∨ x ∈ l.filter (·.peer == c.peer) := by
+    intro x
+    simp only [List.mem_filter]
+    by_cases hp : x.peer = c.peer <;> simp [hp]
+  unfold removeSwap
+  simp only [hany, if_true]
+  cases hrev : (l.filter (·.peer == c.peer)).reverse with
+  | nil =>
+    have : l.filter (·.peer == c.peer) = [] := by simpa using hrev
+    rw [this] at hcm; cases hcm
+  | cons last rest =>
+    have hm : l.filter (·.peer == c.peer) = rest.reverse ++ [last] := by
+      have := congrArg List.reverse hrev
+      simpa using this
+    simp only []
+    rw [List.mem_append, mem_swapRemove _ c.id last rest.reverse hm hmn ⟨c, hcm, rfl⟩ x, hsplit x]
+    constructor
+    · rintro (h | ⟨h, hne⟩)
+      · refine ⟨.inl h, ?_⟩
+        intro e
+        have hx : x ∈ l := (List.mem_filter.mp h).1
+        have hxp : x.peer ≠ c.peer := by simpa using (List.mem_filter.mp h).2
+        have : x = c := eq_of_id_eq hn hx hc e
+        exact hxp (by rw [this])
+      · exact ⟨.inr h, hne⟩
+    · rintro ⟨h | h, hne⟩
+      · exact .inl h
+      · exact .inr ⟨h, hne⟩
+
+/-- **error handlers are told**: when the receive loop of a registered connection sees it fail,
+every registered handler is called exactly once, in registration order, with the identity of the
+peer that was lost, and exactly that connection leaves the table — no other entry is removed. -/
+theorem c09_handlers_told (s : St) (hf : FreshIds s) (c : Conn) (hc : c ∈ s.conns) :
+    (step s (.detect c.id)).1.calls = s.calls ++ s.handlers.map (·, c.peer) ∧
+    (∀ x, x ∈ (step s (.detect c.id)).1.conns ↔ x ∈ s.conns ∧ x.id ≠ c.id) ∧
+    (step s (.detect c.id)).1.up = s.up ∧ (step s (.detect c.id)).1.delivered = s.delivered ∧
+    (step s (.detect c.id)).1.handlers = s.handlers := by
+  have hfind : s.conns.find? (·.id == c.id) = some c := by
+    cases hf' : s.conns.find? (·.id == c.id) with
+    | none =>
+      have := List.find?_eq_none.mp hf' c hc
+      simp at this
+    | some c' =>
+      have hm := List.mem_of_find?_eq_some hf'
+      have hid : c'.id = c.id := by simpa using List.find?_some hf'
+      rw [eq_of_id_eq hf.2 hm hc hid]
+  have hstep : (step s (.detect c.id)).1 =
+      { s with calls := s.calls ++ s.handlers.map (·, c.peer), conns := removeSwap s.conns c } := by
+    simp only [step, hfind]
+  rw [hstep]
+  exact ⟨rfl, fun x => mem_removeSwap s.conns c hc hf.2 x, rfl, rfl, rfl⟩
+
+/-! ### recovery -/
+
+theorem sendMsgs_up (s : St) (p : Peer) (c : Conn) (hcp : c.peer = p) (msgs : List Nat)
+    (hup : s.up.contains p = true) :
+    (sendMsgs s p c false msgs).2 = .ok ∧
+    (sendMsgs s p c false msgs).1.delivered = s.delivered ++ msgs.map (p, ·) := by
+  induction msgs generalizing s with
+  | nil => simp [sendMsgs]
+  | cons m ms ih =>
+    by_cases ha : c.alive = true
+    · have e1 : sendOn s c m false = ({ s with delivered := s.delivered ++ [(c.peer, m)] }, true) := by
+        simp [sendOn, ha]
+      have h := ih { s with delivered := s.delivered ++ [(c.peer, m)] } hup
+      have hd : ({ s with delivered := s.delivered ++ [(c.peer, m)] } : St).delivered
+          = s.delivered ++ [(c.peer, m)] := rfl
+      rw [hd] at h
+      simp only [sendMsgs, e1, if_true]
+      refine ⟨h.1, ?_⟩
+      rw [h.2, hcp]; simp
+    · have e1 : sendOn s c m false = (s, false) := by simp [sendOn, ha]
+      have e2 : sendOn { s with conns := s.conns ++ [{ id := s.next, peer := p, alive := true }],
+                                next := s.next + 1, dials := s.dials + 1 }
+                  { id := s.next, peer := p, alive := true } m false =
+          ({ s with conns := s.conns ++ [{ id := s.next, peer := p, alive := true }],
+                    next := s.next + 1, dials := s.dials + 1,
+                    delivered := s.delivered ++ [(p, m)] }, true) := by
+        simp [sendOn]
+      have := ih { s with conns := s.conns ++ [{ id := s.next, peer := p, alive := true }],
+                          next := s.next + 1, dials := s.dials + 1,
+                          delivered := s.delivered ++ [(p, m)] } hup
+      have hd : ({ s with conns := s.conns ++ [{ id := s.next, peer := p, alive := true }],
+                          next := s.next + 1, dials := s.dials + 1,
+                          delivered := s.delivered ++ [(p, m)] } : St).delivered
+          = s.delivered ++ [(p, m)] := rfl
+      rw [hd] at this
+      simp only [sendMsgs, e1, Bool.false_eq_true, if_false, connect_up s p hup, e2, if_true]
+      refine ⟨this.1, ?_⟩
+      rw [this.2]; simp
+
+/-- a send towards a peer that listens succeeds and hands over every message, in order — over the
+registered connection if its far end exists, else (the write fails) over a fresh one -/
+theorem c09_send_up_delivers (s : St) (p : Peer) (msgs : List Nat) (hne : msgs ≠ [])
+    (hup : s.up.contains p = true) :
+    (send s p msgs false).2 = .ok ∧
+    (send s p msgs false).1.delivered = s.delivered ++ msgs.map (p, ·) := by
+  unfold send
+  have : msgs.isEmpty = false := by cases msgs <;> simp_all
+  simp only [this, Bool.false_eq_true, if_false]
+  split
+  · rename_i c hf
+    exact sendMsgs_up s p c (firstConn_some hf).2 msgs hup
+  · rw [connect_up s p hup]
+    exact sendMsgs_up _ p _ rfl msgs hup
+
+theorem run_append (s : St) (l₁ l₂ : List Act) : run s (l₁ ++ l₂) = run (run s l₁) l₂ := by
+  induction l₁ generalizing s with
+  | nil => rfl
+  | cons a l ih => simp [run, ih]
+
+/-- **recovery**: whatever happened before, once the peer went down, any of its failures were (or
+were not) detected, and something listens at its address again, a new send reaches it: the call
+succeeds and every message is handed to the new incarnation, in order. -/
+theorem c09_recovers (s : St) (p : Peer) (detected : List Nat) (msgs : List Nat) (hne : msgs ≠ []) :
+    let s' := run s ([.peerDown p] ++ detected.map .detect ++ [.peerUp p])
+    (send s' p msgs false).2 = .ok ∧
+    (send s' p msgs false).1.delivered = s'.delivered ++ msgs.map (p, ·) := by
+  intro s'
+  have hup : s'.up.contains p = true := by
+    simp only [s', run_append, run, step]
+    split
+    · rename_i h; exact h
+    · simp
+  exact c09_send_up_delivers s' p msgs hne hup
+
+/-! ### containment -/
+
+/-- what an action is about -/
+def Act.about (s : St) : Act → Option Peer
+  | .peerDown p | .peerUp p | .accept p | .send p _ _ => some p
+  | .detect cid => (s.conns.find? (·.id == cid)).map (·.peer)
+  | .addHandler _ => none
+
+theorem filter_other_append (l x : List Conn) (q : Peer) (hx : ∀ c ∈ x, c.peer ≠ q) :
+    (l ++ x).filter (·.peer == q) = l.filter (·.peer == q) := by
+  rw [List.filter_append]
+  have : x.filter (·.peer == q) = [] := by
+    apply List.filter_eq_nil_iff.mpr
+    intro c hc; simpa using hx c hc
+  simp [this]
+
+theorem filter_markDead (l : List Conn) (p q : Peer) (h : q ≠ p) :
+    (l.map fun c => if c.peer == p then { c with alive := false } else c).filter (·.peer == q)
+      = l.filter (·.peer == q) := by
+  induction l with
+  | nil => rfl
+  | cons c l ih =>
+    by_cases hc : c.peer = p
+    · have h1 : (c.peer == p) = true := by simpa using hc
+      have h2 : (c.peer == q) = false := by
+        have : c.peer ≠ q := by rw [hc]; exact fun e => h e.symm
+        simpa using this
+      rw [List.map_cons, List.filter_cons, List.filter_cons, ih]
+      simp only [h1, if_true, h2, Bool.false_eq_true, if_false]
+    · have h1 : (c.peer == p) = false := by simpa using hc
+      rw [List.map_cons, List.filter_cons, List.filter_cons, ih]
+      simp only [h1, Bool.false_eq_true, if_false]
+
+theorem removeSwap_other (l : List Conn) (c : Conn) (q : Peer) (h : q ≠ c.peer) :
+    (removeSwap l c).filter (·.peer == q) = l.filter (·.peer == q) := by
+  have hoth : (l.filter (·.peer != c.peer)).filter (·.peer == q) = l.filter (·.peer == q) := by
+    rw [List.filter_filter]
+    apply List.filter_congr
+    intro x _
+    by_cases hx : x.peer = q
+    · simp [hx, h]
+    · simp [hx]
+  have hmine : ∀ y ∈ l.filter (·.peer == c.peer), y.peer ≠ q := by
+    intro y hy
+    have : y.peer = c.peer := by simpa using (List.mem_filter.mp hy).2
+    rw [this]; exact fun e => h e.symm
+  simp only [removeSwap]
+  cases hrev : (l.filter (·.peer == c.peer)).reverse with
+  | nil => rfl
+  | cons last rest =>
+    have hlast : last ∈ l.filter (·.peer == c.peer) := by
+      have : last ∈ (l.filter (·.peer == c.peer)).reverse := by rw [hrev]; simp
+      exact List.mem_reverse.mp this
+    simp only []
+    rw [filter_other_append _ _ q ?_, hoth]
+    intro y hy
+    split at hy
+    · have hy' := List.dropLast_subset _ hy
+      obtain ⟨z, hz, hzy⟩ := List.mem_map.mp hy'
+      split at hzy
+      · rw [← hzy]; exact hmine _ hlast
+      · rw [← hzy]; exact hmine _ hz
+    · exact hmine y hy
+
+theorem connect_other (s : St) (p q : Peer) (h : q ≠ p) :
+    (connect s p).1.conns.filter (·.peer == q) = s.conns.filter (·.peer == q) ∧
+    (connect s p).1.delivered = s.delivered := by
+  unfold connect
+  split
+  · exact ⟨filter_other_append _ _ q (by intro c hc; simp at hc; subst hc; exact fun e => h e.symm), rfl⟩
+  · exact ⟨rfl, rfl⟩
+
+theorem sendMsgs_other (s : St) (p q : Peer) (c : Conn) (hcp : c.peer = p) (b : Bool) (msgs : List Nat)
+    (h : q ≠ p) :
+    (sendMsgs s p c b msgs).1.conns.filter (·.peer == q) = s.conns.filter (·.peer == q) ∧
+    (sendMsgs s p c b msgs).1.delivered.filter (·.1 == q) = s.delivered.filter (·.1 == q) := by
+  have hqp : (p == q) = false := by simpa using fun e : p = q => h e.symm
+  have sendOn_other : ∀ (s : St) (c : Conn), c.peer = p → ∀ m,
+      (sendOn s c m b).1.delivered.filter (·.1 == q) = s.delivered.filter (·.1 == q) := by
+    intro s c hc m
+    unfold sendOn
+    split
+    · simp [List.filter_append, hc, hqp]
+    · rfl
+  induction msgs generalizing s with
+  | nil => simp [sendMsgs]
+  | cons m ms ih =>
+    simp only [sendMsgs]
+    have o1 := sendOn_other s c hcp m
+    have c1 := sendOn_conns s c m b
+    split
+    · have := ih (sendOn s c m b).1
+      rw [c1, o1] at this
+      exact this
+    · have co := connect_other (sendOn s c m b).1 p q h
+      rw [c1] at co
+      split
+      · rename_i s2 heq
+        have h2 : s2 = (connect (sendOn s c m b).1 p).1 := by rw [heq]
+        subst h2
+        exact ⟨co.1, by rw [co.2, o1]⟩
+      · rename_i s2 c' heq
+        have h2 : s2 = (connect (sendOn s c m b).1 p).1 := by rw [heq]
+        have hc' : c'.peer = p := connect_some_peer heq
+        subst h2
+        have o2 := sendOn_other (connect (sendOn s c m b).1 p).1 c' hc' m
+        have c2 := sendOn_conns (connect (sendOn s c m b).1 p).1 c' m b
+        split
+        · have := ih (sendOn (connect (sendOn s c m b).1 p).1 c' m b).1
+          rw [c2, o2, co.1, co.2, o1] at this
+          exact this
+        · exact ⟨by rw [c2, co.1], by rw [o2, co.2, o1]⟩
+
+/-- **containment**: an action that concerns peer `p` — its process ending or coming back, the
+detection of one of its connections failing, a connection it opens, any send towards it, with
+whatever retries — leaves every other peer `q` exactly as it was: the same registered connections
+in the same order, listening or not as before, the same messages delivered to it, no error handler
+told about it. (There is no crash outcome in the model: every step is a total function into
+`ok | err`.) -/
+theorem c09_contained (s : St) (a : Act) (p q : Peer) (ha : a.about s = some p) (h : q ≠ p) :
+    (step s a).1.conns.filter (·.peer == q) = s.conns.filter (·.peer == q) ∧
+    (step s a).1.up.contains q = s.up.contains q ∧
+    (step s a).1.delivered.filter (·.1 == q) = s.delivered.filter (·.1 == q) ∧
+    (step s a).1.calls.filter (·.2 == q) = s.calls.filter (·.2 == q) := by
+  have hpq : (p == q) = false := by simpa using fun e : p = q => h e.symm
+  cases a with
+  | peerDown p' =>
+    simp only [Act.about, Option.some.injEq] at ha; subst ha
+    refine ⟨filter_markDead s.conns p' q h, ?_, rfl, rfl⟩
+    show (s.up.filter (· != p')).contains q = s.up.contains q
+    rw [Bool.eq_iff_iff]
+    simp only [List.contains_eq_mem, List.mem_filter, decide_eq_true_eq]
+    constructor
+    · exact fun hh => hh.1
+    · exact fun hh => ⟨hh, by simpa using h⟩
+  | peerUp p' =>
+    simp only [Act.about, Option.some.injEq] at ha; subst ha
+    have hstep : (step s (.peerUp p')).1 = { s with up := if s.up.contains p' then s.up else s.up ++ [p'] } := rfl
+    rw [hstep]
+    refine ⟨rfl, ?_, rfl, rfl⟩
+    show (if s.up.contains p' then s.up else s.up ++ [p']).contains q = s.up.contains q
+    split
+    · rfl
+    · rw [Bool.eq_iff_iff]
+      simp [h]
+  | accept p' =>
+    simp only [Act.about, Option.some.injEq] at ha; subst ha
+    by_cases hu : s.up.contains p' = true
+    · have hstep : (step s (.accept p')).1 =
+          { s with conns := s.conns ++ [{ id := s.next, peer := p', alive := true }], next := s.next + 1 } := by
+        simp only [step, hu, if_true]
+      rw [hstep]
+      exact ⟨filter_other_append _ _ q (by intro c hc; simp at hc; rw [hc]; exact fun e => h e.symm),
+        rfl, rfl, rfl⟩
+    · have hstep : (step s (.accept p')).1 = s := by
+        simp only [step, hu, Bool.false_eq_true, if_false]
+      rw [hstep]
+      exact ⟨rfl, rfl, rfl, rfl⟩
+  | addHandler hh => simp [Act.about] at ha
+  | detect cid =>
+    simp only [Act.about] at ha
+    cases hf : s.conns.find? (·.id == cid) with
+    | none => rw [hf] at ha; cases ha
+    | some c =>
+      rw [hf] at ha
+      simp only [Option.map_some, Option.some.injEq] at ha
+      have hstep : (step s (.detect cid)).1 =
+          { s with calls := s.calls ++ s.handlers.map (·, c.peer), conns := removeSwap s.conns c } := by
+        simp only [step, hf]
+      rw [hstep]
+      refine ⟨removeSwap_other s.conns c q (by rw [ha]; exact h), rfl, rfl, ?_⟩
+      show (s.calls ++ s.handlers.map (·, c.peer)).filter (·.2 == q) = s.calls.filter (·.2 == q)
+      rw [List.filter_append]
+      have : (s.handlers.map (·, c.peer)).filter (·.2 == q) = [] := by
+        apply List.filter_eq_nil_iff.mpr
+        intro x hx
+        obtain ⟨hh, _, rfl⟩ := List.mem_map.mp hx
+        simp [ha, hpq]
+      simp [this]
+  | send p' msgs b =>
+    simp only [Act.about, Option.some.injEq] at ha; subst ha
+    show (send s p' msgs b).1.conns.filter (·.peer == q) = _ ∧ (send s p' msgs b).1.up.contains q = _ ∧
+      (send s p' msgs b).1.delivered.filter (·.1 == q) = _ ∧ (send s p' msgs b).1.calls.filter (·.2 == q) = _
+    unfold send
+    split
+    · exact ⟨rfl, rfl, rfl, rfl⟩
+    · split
+      · rename_i c hf
+        have hk := sendMsgs_keeps s p' c b msgs
+        have ho := sendMsgs_other s p' q c (firstConn_some hf).2 b msgs h
+        exact ⟨ho.1, by rw [hk.up], ho.2, by rw [hk.calls]⟩
+      · have kc := connect_keeps s p'
+        have co := connect_other s p' q h
+        split
+        · rename_i s1 heq
+          have h1 : s1 = (connect s p').1 := by rw [heq]
+          subst h1
+          exact ⟨co.1, by rw [kc.up], by rw [co.2], by rw [kc.calls]⟩
+        · rename_i s1 c heq
+          have hcp := connect_some_peer heq
+          have h1 : s1 = (connect s p').1 := by rw [heq]
+          subst h1
+          have hk := sendMsgs_keeps (connect s p').1 p' c b msgs
+          have ho := sendMsgs_other (connect s p').1 p' q c hcp b msgs h
+          exact ⟨by rw [ho.1, co.1], by rw [hk.up, kc.up], by rw [ho.2, co.2], by rw [hk.calls, kc.calls]⟩
+
+/-! ### the invariants hold in every reachable state -/
+
+def Inv (s : St) : Prop := Consistent s ∧ FreshIds s
+
+theorem inv_init (dpc : Nat) (up : List Peer) : Inv { dpc := dpc, up := up } := by
+  refine ⟨?_, ?_, ?_⟩ <;> simp [Consistent]
+
+theorem connect_inv (s : St) (p : Peer) (h : Inv s) : Inv (connect s p).1 := by
+  obtain ⟨hc, hlt, hnd⟩ := h
+  by_cases hu : s.up.contains p = true
+  · rw [connect_up s p hu]
+    refine ⟨?_, ?_, ?_⟩
+    · intro c hm ha
+      rcases List.mem_append.mp hm with hm | hm
+      · exact hc c hm ha
+      · simp at hm; subst hm; exact hu
+    · intro c hm
+      rcases List.mem_append.mp hm with hm | hm
+      · have := hlt c hm; show c.id < s.next + 1; omega
+      · simp at hm; subst hm; show s.next < s.next + 1; omega
+    · show ((s.conns ++ [({ id := s.next, peer := p, alive := true } : Conn)]).map (fun x => x.id)).Nodup
+      rw [List.map_append, List.nodup_append]
+      refine ⟨hnd, by simp, ?_⟩
+      intro a ha b hb
+      obtain ⟨x, hx, rfl⟩ := List.mem_map.mp ha
+      simp at hb; subst hb
+      have := hlt x hx
+      omega
+  · have hu' : s.up.contains p = false := by simpa using hu
+    rw [connect_down s p hu']
+    exact ⟨hc, hlt, hnd⟩
+
+theorem sendOn_inv (s : St) (c : Conn) (m : Nat) (b : Bool) (h : Inv s) : Inv (sendOn s c m b).1 := by
+  unfold sendOn; split
+  · exact h
+  · exact h
+
+theorem sendMsgs_inv (s : St) (p : Peer) (c : Conn) (b : Bool) (msgs : List Nat) (h : Inv s) :
+    Inv (sendMsgs s p c b msgs).1 := by
+  induction msgs generalizing s with
+  | nil => exact h
+  | cons m ms ih =>
+    simp only [sendMsgs]
+    have i1 := sendOn_inv s c m b h
+    split
+    · exact ih _ i1
+    · have ic := connect_inv (sendOn s c m b).1 p i1
+      split
+      · rename_i s2 heq
+        have h2 : s2 = (connect (sendOn s c m b).1 p).1 := by rw [heq]
+        subst h2; exact ic
+      · rename_i s2 c' heq
+        have h2 : s2 = (connect (sendOn s c m b).1 p).1 := by rw [heq]
+        subst h2
+        have i2 := sendOn_inv (connect (sendOn s c m b).1 p).1 c' m b ic
+        split
+        · exact ih _ i2
+        · exact i2
+
+theorem send_inv (s : St) (p : Peer) (msgs : List Nat) (b : Bool) (h : Inv s) : Inv (send s p msgs b).1 := by
+  unfold send
+  split
+  · exact h
+  · split
+    · exact sendMsgs_inv s p _ b msgs h
+    · have ic := connect_inv s p h
+      split
+      · rename_i s1 heq
+        have h1 : s1 = (connect s p).1 := by rw [heq]
+        subst h1; exact ic
+      · rename_i s1 c heq
+        have h1 : s1 = (connect s p).1 := by rw [heq]
+        subst h1; exact sendMsgs_inv _ p c b msgs ic
+
+theorem nodup_replace (init : List Conn) (cid : Nat) (last : Conn) (hn : (init.map (·.id)).Nodup)
+    (hl : ∀ y ∈ init, y.id ≠ last.id) :
+    ((init.map fun y => if y.id == cid then last else y).map (·.id)).Nodup := by
+  induction init with
+  | nil => simp
+  | cons a t ih =>
+    simp only [List.map_cons, List.nodup_cons] at hn ⊢
+    have iht := ih hn.2 (fun y hy => hl y (List.mem_cons_of_mem _ hy))
+    refine ⟨?_, iht⟩
+    intro hmem
+    obtain ⟨z, hz, hzid⟩ := List.mem_map.mp hmem
+    obtain ⟨y, hy, hyz⟩ := List.mem_map.mp hz
+    by_cases ha : a.id = cid
+    · -- a is replaced by last; nothing else in t has that id
+      have hycid : y.id ≠ cid := fun e => hn.1 (List.mem_map.mpr ⟨y, hy, e.trans ha.symm⟩)
+      simp [ha, hycid] at hyz hzid
+      subst hyz
+      exact hl y (List.mem_cons_of_mem _ hy) hzid
+    · simp [ha] at hzid
+      by_cases hyc : y.id = cid
+      · simp [hyc] at hyz; subst hyz
+        exact hl a (by simp) hzid.symm
+      · simp [hyc] at hyz; subst hyz
+        exact hn.1 (List.mem_map.mpr ⟨y, hy, hzid⟩)
+
+theorem removeSwap_nodup (l : List Conn) (c : Conn) (hc : c ∈ l) (hn : (l.map (·.id)).Nodup) :
+    ((removeSwap l c).map (·.id)).Nodup := by
+  have hcm : c ∈ l.filter (·.peer == c.peer) := List.mem_filter.mpr ⟨hc, by simp⟩
+  have hmn : ((l.filter (·.peer == c.peer)).map (·.id)).Nodup :=
+    hn.sublist (List.Sublist.map _ List.filter_sublist)
+  have hon : ((l.filter (·.peer != c.peer)).map (·.id)).Nodup :=
+    hn.sublist (List.Sublist.map _ List.filter_sublist)
+  have hany : (l.filter (·.peer == c.peer)).any (·.id == c.id) = true :=
+    List.any_eq_true.mpr ⟨c, hcm, by simp⟩
+  simp only [removeSwap, hany, if_true]
+  cases hrev : (l.filter (·.peer == c.peer)).reverse with
+  | nil =>
+    have : l.filter (·.peer == c.peer) = [] := by simpa using hrev
+    rw [this] at hcm; cases hcm
+  | cons last rest =>
+    have hm : l.filter (·.peer == c.peer) = rest.reverse ++ [last] := by
+      have := congrArg List.reverse hrev
+      simpa using this
+    simp only []
+    rw [hm, List.map_append, List.map_append, List.map_singleton, List.dropLast_concat, List.nodup_append]
+    rw [hm, List.map_append, List.map_singleton] at hmn
+    have hninit : ∀ y ∈ rest.reverse, y.id ≠ last.id := by
+      intro y hy e
+      exact (List.nodup_append.mp hmn).2.2 y.id (List.mem_map.mpr ⟨y, hy, rfl⟩) last.id (by simp) e
+    refine ⟨hon, nodup_replace _ c.id last (List.nodup_append.mp hmn).1 hninit, ?_⟩
+    intro a ha b hb e
+    obtain ⟨x, hx, rfl⟩ := List.mem_map.mp ha
+    obtain ⟨z, hz, rfl⟩ := List.mem_map.mp hb
+    obtain ⟨y, hy, hyz⟩ := List.mem_map.mp hz
+    -- z is an entry of the lost peer's slice, x is not
+    have hzmine : z ∈ l.filter (·.peer == c.peer) := by
+      rw [hm]
+      split at hyz
+      · rw [← hyz]; simp
+      · rw [← hyz]; simp [hy]
+    have hxl : x ∈ l := (List.mem_filter.mp hx).1
+    have hzl : z ∈ l := (List.mem_filter.mp hzmine).1
+    have hxz : x = z := eq_of_id_eq hn hxl hzl e
+    have h1 : x.peer ≠ c.peer := by simpa using (List.mem_filter.mp hx).2
+    have h2 : z.peer = c.peer := by simpa using (List.mem_filter.mp hzmine).2
+    exact h1 (by rw [hxz]; exact h2)
+
+theorem inv_step (s : St) (a : Act) (h : Inv s) : Inv (step s a).1 := by
+  obtain ⟨hc, hlt, hnd⟩ := h
+  cases a with
+  | peerDown p =>
+    refine ⟨?_, ?_, ?_⟩
+    · intro c hm ha
+      obtain ⟨y, hy, hyc⟩ := List.mem_map.mp hm
+      by_cases hp : y.peer = p
+      · simp [hp] at hyc; rw [← hyc] at ha; simp at ha
+      · simp [hp] at hyc; subst hyc
+        have := hc y hy ha
+        show (s.up.filter (· != p)).contains y.peer = true
+        simp only [List.contains_eq_mem, List.mem_filter, decide_eq_true_eq] at this ⊢
+        exact ⟨this, by simpa using hp⟩
+    · intro c hm
+      obtain ⟨y, hy, hyc⟩ := List.mem_map.mp hm
+      have : c.id = y.id := by rw [← hyc]; split <;> rfl
+      rw [this]; exact hlt y hy
+    · show ((s.conns.map fun c => if c.peer == p then { c with alive := false } else c).map (·.id)).Nodup
+      rw [List.map_map]
+      have : ((fun c : Conn => c.id) ∘ fun c => if c.peer == p then { c with alive := false } else c)
+          = fun c => c.id := by
+        funext c; simp only [Function.comp]; split <;> rfl
+      rw [this]; exact hnd
+  | peerUp p =>
+    refine ⟨?_, hlt, hnd⟩
+    intro c hm ha
+    have := hc c hm ha
+    show (if s.up.contains p then s.up else s.up ++ [p]).contains c.peer = true
+    split
+    · exact this
+    · simp only [List.contains_eq_mem, List.mem_append, decide_eq_true_eq] at this ⊢
+      exact .inl this
+  | detect cid =>
+    simp only [step]
+    split
+    · exact ⟨hc, hlt, hnd⟩
+    · rename_i c hf
+      have hm := List.mem_of_find?_eq_some hf
+      refine ⟨?_, ?_, removeSwap_nodup s.conns c hm hnd⟩
+      · intro x hx ha
+        exact hc x ((mem_removeSwap s.conns c hm hnd x).mp hx).1 ha
+      · intro x hx
+        exact hlt x ((mem_removeSwap s.conns c hm hnd x).mp hx).1
+  | accept p =>
+    simp only [step]
+    split
+    · rename_i hu
+      have := connect_inv s p ⟨hc, hlt, hnd⟩
+      rw [connect_up s p hu] at this
+      exact ⟨this.1, this.2.1, this.2.2⟩
+    · exact ⟨hc, hlt, hnd⟩
+  | addHandler hh => exact ⟨hc, hlt, hnd⟩
+  | send p msgs b => exact send_inv s p msgs b ⟨hc, hlt, hnd⟩
+
+/-- every state a history can reach satisfies the hypotheses of the theorems above -/
+theorem c09_invariants_reachable (s : St) (acts : List Act) (h : Inv s) : Inv (run s acts) := by
+  induction acts generalizing s with
+  | nil => exact h
+  | cons a l ih => exact ih _ (inv_step s a h)
+
+/-! ### non-vacuity and a worked history -/
+
+private def s0 : St := { dpc := 5, up := [1, 2] }
+
+/-- peer 1 is used, dies, is detected (two handlers are told, the entry goes), a send towards it
+fails after 5 dials, it comes back, the next send connects afresh with one dial and delivers;
+peer 2's connection is untouched throughout -/
+example :
+    let s := run s0 [.addHandler 10, .addHandler 11, .send 1 [7] false, .send 2 [8] false,
+                     .peerDown 1, .detect 0, .send 1 [9] false, .peerUp 1, .send 1 [9] false]
+    s.calls = [(10, 1), (11, 1)] ∧ s.delivered = [(1, 7), (2, 8), (1, 9)] ∧
+    s.conns = [{ id := 1, peer := 2, alive := true }, { id := 2, peer := 1, alive := true }] ∧
+    s.dials = 1 + 1 + 5 + 1 := by decide
+
+/-- a stale entry that was never detected: the write fails, one reconnect, delivered — and the
+stale entry is still there (only the receive loop removes it) -/
+example :
+    let s := run s0 [.send 1 [7] false, .peerDown 1, .peerUp 1, .send 1 [8] false]
+    s.delivered = [(1, 7), (1, 8)] ∧ (s.conns.map (·.alive)) = [false, true] := by decide
+
+/-- the residue named in the model: on TCP the write on a stale entry may be accepted locally —
+the call reports success and the message is lost -/
+example : (step (run s0 [.send 1 [7] false, .peerDown 1]) (.send 1 [8] true)).2 = .ok ∧
+    (step (run s0 [.send 1 [7] false, .peerDown 1]) (.send 1 [8] true)).1.delivered = [(1, 7)] := by decide
+
+example : Inv s0 := inv_init 5 [1, 2]
+
+example : 1 ≤ (entry .sendToChildren [1, 3, 2] (fun d => (send s0 d [0] false).2)).1 ∧
+    (entry .sendToChildren [1, 3, 2] (fun d => (send s0 d [0] false).2)).2 = [1, 3] := by decide
+
 
 end C09
